@@ -10,6 +10,7 @@ import EaselModel.Stats.MinReal
 import EaselModel.Stats.MinCounter
 import EaselModel.Stats.MinTrace
 import EaselModel.Stats.MinDescent
+import EaselModel.Stats.WeibullReal
 /-! # C11 — property theorems (statements + glue only; lemmas live in `EaselModel/Stats/*`)
 
 Histogram half. `Hist` is the line-by-line model of `esl_histogram.c` (`EaselModel/Stats/Histogram.lean`), run bit-for-bit
@@ -282,11 +283,12 @@ theorem truncated_gumbel_fit_post {α : Type} [Num α] (xs : Array α) (phi : α
     (st = .ok → (tevdCG xs phi).2 = .converged ∨ (tevdCG xs phi).2 = .zeroDirection ∨ (tevdCG xs phi).2 = .zeroGradient) :=
   gumbelFitTruncated_post xs phi st ps h
 
-/-- `esl_wei_FitCompleteBinned`: documented status, documented location (`xmin`, or `LBound(imin)` for rounded data). -/
-theorem weibull_binned_fit_post {α : Type} [Num α] (h : Hist α) (st : St) (ps : Array α) (hr : weiFitCompleteBinned h = .res st ps) :
+/-- `esl_wei_FitCompleteBinned`: documented status, documented location (`phi` after `SetExpectedTail` (`is_tailfit`), else `xmin`, or
+    `LBound(imin)` for rounded data). -/
+theorem weibull_binned_fit_post {α : Type} [Num α] (h : Hist α) (tailfit : Bool) (st : St) (ps : Array α) (hr : weiFitCompleteBinned h tailfit = .res st ps) :
     (st = .ok ∨ st = .enohalt ∨ st = .erange ∨ st = .enoresult) ∧ ps.size = 3 ∧
-    ps.getD 0 Num.zero = (if h.isRounded then h.lbound h.imin else h.xmin) :=
-  weiFitBinned_post h st ps hr
+    ps.getD 0 Num.zero = (if tailfit then h.phi else if h.isRounded then h.lbound h.imin else h.xmin) :=
+  weiFitBinned_post h tailfit st ps hr
 
 /-- `esl_gam_FitCompleteBinned` (moments of the bin midpoints, then ≤100 bracketing and ≤100 bisection steps on `tau_function`): total;
     status in {eslOK, eslEINVAL, eslENOHALT}. -/
@@ -453,6 +455,62 @@ example : (cgd ({ (MinCfg.null : MinCfg ℝ) with maxIter := 0 }) (fun x => x.ge
     = .res .enohalt #[1] 1 := by
   have h : ¬ ((1.0 : ℝ) = 0) := by norm_num
   simp [cgd, cgLoop, negGradient, allZero, Num.isFinite, h]
+
+/-! ### round 4: the Weibull and gamma likelihoods (what the conjugate-gradient / generalized-Newton fits optimise)
+
+Full statement of the property for these fits: the returned `(λ, τ)` maximise the log-likelihood. Proved: what the objective is, its
+derivatives, positivity of the returned parameters, and that stationarity ⇒ GLOBAL maximum for the Weibull (concavity in `(τ, τ log λ)`),
+with an explicit bound on the shortfall in terms of the derivatives at the returned point. NOT proved (`_partial`): that the optimiser's
+stopping rule (`esl_DCompare(fx, oldfx, 1e-5, 1e-10)`) makes those derivatives small — it tests the decrease of `f`, not the gradient. -/
+
+/-- `wei_func` (the objective `esl_wei_FitComplete` hands to the optimiser) over ℝ: minus the Weibull log-likelihood, in `w = log λ` and
+    `τ = exp v`, of the samples above `mu` (samples equal to `mu` are skipped when `τ ≠ 1`: the code's convention since 935fded). -/
+theorem weibull_objective_is_neg_loglik (xs : Array ℝ) (mu w v : ℝ) (hmu : ∀ x ∈ xs.toList, mu ≤ x) (hv : Real.exp v ≠ 1) :
+    weiFunc xs mu #[w, v] = -(llWei ((xs.toList.filter (fun x => decide (x ≠ mu))).map (fun x => Real.log (x - mu))) w (Real.exp v)) :=
+  weiFunc_eq xs mu w v hmu hv
+
+example : (∀ x ∈ (#[(1 : ℝ), 2, 4] : Array ℝ).toList, (1 : ℝ) ≤ x) ∧ Real.exp (1 : ℝ) ≠ 1 := by
+  constructor
+  · intro x hx; simp at hx; rcases hx with rfl | rfl | rfl <;> norm_num
+  · intro h; have := Real.add_one_le_exp (1 : ℝ); linarith
+
+/-- the partial derivatives of the Weibull log-likelihood in `log λ` and in `τ` (`HasDerivAt`, any data) -/
+theorem weibull_loglik_derivatives (ls : List ℝ) (w tau : ℝ) (ht : 0 < tau) :
+    HasDerivAt (fun w => llWei ls w tau) (llWeiDw ls w tau) w ∧ HasDerivAt (fun t => llWei ls w t) (llWeiDtau ls w tau) tau :=
+  ⟨llWei_hasDerivAt_w ls w tau, llWei_hasDerivAt_tau ls w tau ht⟩
+
+/-- **Weibull: the distance of ANY point from the global maximum is bounded by its derivatives** (concavity in `(τ, θ = τ log λ)`): for
+    every data set, every `(w, τ)`, `τ > 0`, and every competitor `(w', τ')`, `τ' > 0`:
+    `logL(w', τ') ≤ logL(w, τ) + (∂τ - w·∂w/τ)(τ' - τ) + (∂w/τ)(τ'w' - τw)`. -/
+theorem weibull_fit_optimality_certificate (ls : List ℝ) (w tau w' tau' : ℝ) (ht : 0 < tau) (ht' : 0 < tau') :
+    llWei ls w' tau' ≤ llWei ls w tau + (llWeiDtau ls w tau - w * (llWeiDw ls w tau / tau)) * (tau' - tau)
+      + (llWeiDw ls w tau / tau) * (tau' * w' - tau * w) :=
+  llWei_near_optimal ls w tau w' tau' ht ht'
+
+/-- **Weibull: a stationary point is THE global maximum** — whatever the data, the likelihood has no other local maxima, saddle points
+    or plateaus for the optimiser to stop at. (That the conjugate-gradient result IS stationary is the part not proved: `_partial`.) -/
+theorem weibull_stationary_is_global_maximiser_partial (ls : List ℝ) (w tau : ℝ) (ht : 0 < tau) (hw : llWeiDw ls w tau = 0)
+    (hτ : llWeiDtau ls w tau = 0) (w' tau' : ℝ) (ht' : 0 < tau') : llWei ls w' tau' ≤ llWei ls w tau :=
+  llWei_stationary_is_max ls w tau ht hw hτ w' tau' ht'
+
+/-- the reparameterisation the code relies on: whatever the optimiser returns, `esl_wei_FitComplete` and `esl_sxp_FitComplete` hand back
+    `mu` = the smallest observation, `lambda = exp(p[0]) > 0` and `tau = exp(p[1]) > 0` (ℝ) -/
+theorem weibull_sxp_fit_parameters_positive (xs : Array ℝ) (st : St) (ps : Array ℝ)
+    (h : weiFitComplete xs = .res st ps ∨ sxpFitComplete xs = .res st ps) :
+    ps.size = 3 ∧ ps.getD 0 0 = vmin xs ∧ 0 < ps.getD 1 0 ∧ 0 < ps.getD 2 0 := by
+  rcases h with h | h
+  · exact fit2Result_pos (weiCG xs).1 (weiCG xs).2 st ps h
+  · exact fit2Result_pos (sxpCG xs).1 (sxpCG xs).2 st ps h
+
+/-- gamma (`esl_gam_FitComplete`, `gam_fitting_engine`): for EVERY shape `τ > 0` the rate `λ = τ/x̄` the engine returns (`gamma_engine_post`)
+    is THE maximiser in `λ` of the log-likelihood, and `gam_nll(τ)`, whose decrease the engine monitors, is minus that profile
+    log-likelihood per sample. (`lg` stands for `logΓ(τ)`, a constant in `λ`.) Stationarity in `τ` involves the digamma function, which the
+    code approximates by its own series (`esl_stats_Psi`): not proved. -/
+theorem gamma_rate_is_maximiser (xbar logxbar lg tau lam : ℝ) (hx : 0 < xbar) (ht : 0 < tau) (hl : 0 < lam) :
+    (llGam1 xbar logxbar lg lam tau ≤ llGam1 xbar logxbar lg (tau / xbar) tau ∧
+      (llGam1 xbar logxbar lg lam tau = llGam1 xbar logxbar lg (tau / xbar) tau → lam = tau / xbar)) ∧
+    gamNll xbar logxbar tau = some (-(llGam1 xbar logxbar (logGamma tau) (tau / xbar) tau)) :=
+  ⟨gamma_rate_max xbar logxbar lg tau lam hx ht hl, gamNll_is_profile xbar logxbar tau hx ht⟩
 
 /-- over ℝ, `esl_vec_DMin` is the smallest observation (non-empty data) -/
 theorem cg_fit_location_is_minimum (xs : Array ℝ) (hn : 0 < xs.size) : vmin xs ∈ xs.toList ∧ ∀ x ∈ xs.toList, vmin xs ≤ x := by
